@@ -348,7 +348,9 @@ def build_shape(shape):
     def ifs(prefix):
         ii = InterfaceInfo()
         for k in range(nif):
-            p = make('interface', f'{prefix}-p{k}', InterfaceType.DedicatedPort, f'id-{next(cnt)}', (('labels', k % 2),))
+            # the parent of sub-interfaces is a dedicated port of a NIC or - second port - a trunk port (switch, facility side)
+            p = make('interface', f'{prefix}-p{k}', InterfaceType.DedicatedPort if k % 2 == 0 else InterfaceType.TrunkPort,
+                     f'id-{next(cnt)}', (('labels', k % 2),))
             if nsub:
                 si = InterfaceInfo()
                 for j in range(nsub):
